@@ -2,6 +2,7 @@ import SlicecVerif.Drv.C10
 import SlicecVerif.Drv.C11
 import SlicecVerif.Drv.C12
 import SlicecVerif.Drv.C02
+import SlicecVerif.Drv.C02lex
 import SlicecVerif.Drv.C17
 import SlicecVerif.Drv.C08
 import SlicecVerif.Drv.C16
@@ -34,6 +35,7 @@ def main (args : List String) : IO UInt32 := do
     | "C12" => genC12 t s o
     | "C02" => genC02 t s o
     | "C09" => genC09 t s o
+    | "C02lex" => genC02lex t s o
     | "C17" => genC17 t s o
     | "C08" => genC08 t s o
     | "C08p" => genC08p t s o
